@@ -22,7 +22,7 @@ from typing import Callable, Dict, Iterable, List, Optional, Sequence, Set, Tupl
 from sa.astx import NotConst, assigned_targets, call_name, dotted, src, walk_local
 
 __all__ = [
-    "NONNULL", "FALSY", "peval", "test_value", "reach_under", "path_under", "must_pass_under", "implied",
+    "NONNULL", "FALSY", "FALSY_NONNULL", "peval", "test_value", "reach_under", "path_under", "must_pass_under", "implied",
     "is_self_attr", "self_assigns", "call_nodes", "calls_with", "const_value_is", "written_names", "succ_of",
     "facts_at", "undecided_tests", "handler_names", "covers", "no_exc", "first_arg", "name_of", "slice_parts", "value_returned", "local_def", "test_value",
 ]
@@ -40,6 +40,7 @@ class _Abstract:
 
 
 NONNULL = _Abstract("<non-None, truthy>", True, False)
+FALSY_NONNULL = _Abstract("<non-None object that is falsy (empty container, __len__ == 0, __bool__ False)>", False, False)
 FALSY = _Abstract("<falsy>", False, None)
 
 _FUNCS = {
